@@ -138,6 +138,13 @@ func (c *ProcChan) WaitStop() {
 // addCallCtx : add call context
 func (c *ProcChan) addCallCtx(ctx context.Context, proc Proc) (*procChanCtxT, error) {
 	var procCtx = newProcChanCtx(ctx, proc)
+	// once stopped nothing new is accepted: without this check the select below
+	// picks at random between a free slot in the channel and the closed stop channel
+	select {
+	case <-c.stopChan:
+		return procCtx, ErrClosed
+	default:
+	}
 	select {
 	case c.ch <- procCtx:
 		return procCtx, nil
